@@ -1226,3 +1226,10 @@ def _pool_id(ex, p, args, kwargs, node):
     if not isinstance(e, ZX.VZE):
         raise Unsupported("IDPool.id of a value that is not a z3 syntax tree")
     return VInt(ZX.pid(e.t))
+
+
+@fn("z3.Tactic", "z3.z3.Tactic", tb="TB-tac")
+def _z3tactic(ex, args, kwargs, node):
+    v = VOpaque("z3 tactic")
+    v.kind = "tactic"
+    return v
